@@ -61,7 +61,7 @@ func checkC08Run(t *testing.T, sc *Scenario, rec *Recorder) []Diff {
 		labels = append(labels, "cancelled-before-engine")
 	} else if sc.CancelAtUs > 0 {
 		cAt := us(sc.CancelAtUs)
-		if o.Err != nil && errors.Is(o.Err, context.Canceled) {
+		if o.Err != nil && isCtxEnd(o.Err) {
 			labels = append(labels, "cancelled-inside")
 			if late := o.Elapsed - cAt; late > sc.Poll()+sc.Delay()+c08Slack {
 				ds = append(ds, Diff{"C08", "slow-cancel", fmt.Sprintf("context cancelled at %v but the run returned at %v (%v later; allowed poll %v + delay %v)", cAt, o.Elapsed, late, sc.Poll(), sc.Delay())})
@@ -79,7 +79,7 @@ func checkC08Run(t *testing.T, sc *Scenario, rec *Recorder) []Diff {
 }
 
 func TestC08Runs(t *testing.T) {
-	rec := NewRecorder("C08", "C08Runs", "rapid: protocol-level runs of every variant against silence, generated worlds, and floods of irrelevant/malformed packets at up to 10 packets per virtual millisecond (foreign ICMP errors, garbage, short packets, foreign SYN-ACKs, UDP), with cancellation instants drawn over the whole run for the context-taking entry points (icmp, sack); oracle: virtual elapsed time <= bound(parameters) and cancellation returns context.Canceled within poll + send delay; non-trivial = >= 20 non-matching packets were read or the context was cancelled strictly inside the run")
+	rec := NewRecorder("C08", "C08Runs", "rapid: protocol-level runs of every variant against silence, generated worlds, and floods of irrelevant/malformed packets at up to 10 packets per virtual millisecond (foreign ICMP errors, garbage, short packets, foreign SYN-ACKs, UDP), with cancellation instants drawn over the whole run for the context-taking entry points (icmp, sack), a third of them as a deadline carried by the caller's context instead of an explicit cancel; oracle: virtual elapsed time <= bound(parameters) and the end of the context is reported (context.Canceled / DeadlineExceeded) within poll + send delay; non-trivial = >= 20 non-matching packets were read or the context was cancelled strictly inside the run")
 	RunProp(t, rec, func(rt *rapid.T) *Scenario {
 		sc := GenScenario(rt, GenOpts{MaxSpan: 12, Dups: true})
 		sc.Noise = nil
@@ -114,6 +114,7 @@ func TestC08Runs(t *testing.T) {
 		if (sc.Variant == "icmp4" || sc.Variant == "icmp6" || sc.Variant == "sack") && rapid.Bool().Draw(rt, "cancel") {
 			total := sc.Timeout() + time.Duration(sc.MaxTTL-sc.MinTTL+1)*sc.Delay()
 			sc.CancelAtUs = rapid.Int64Range(1, total.Microseconds()+1000).Draw(rt, "cancel_at_us")
+			sc.CancelDL = oneOf(rt, "cancel_by_deadline", false, false, true)
 		}
 		return sc
 	}, checkC08Run)
@@ -133,6 +134,7 @@ func TestC08Engines(t *testing.T) {
 		}
 		if rapid.Bool().Draw(rt, "cancel") {
 			c.CancelAtNs = rapid.Int64Range(1, total+1).Draw(rt, "cancel_at")
+			c.CancelDL = oneOf(rt, "cancel_by_deadline", false, false, true)
 		}
 		if rapid.Bool().Draw(rt, "noise_flood") {
 			for i := 0; i < 40; i++ {
@@ -164,7 +166,7 @@ func TestC08Engines(t *testing.T) {
 		inside := false
 		if c.CancelAtNs > 0 {
 			cAt := time.Duration(c.CancelAtNs)
-			if errors.Is(o.err, context.Canceled) {
+			if isCtxEnd(o.err) {
 				inside = true
 				if late := o.elapsed - cAt; late > poll+delay+c08Slack {
 					ds = append(ds, Diff{"C08", "slow-cancel", fmt.Sprintf("%s engine: cancelled at %v, returned at %v (%v later; allowed %v)", c.Engine, cAt, o.elapsed, late, poll+delay)})
